@@ -98,6 +98,9 @@ func (k Keeper) DeleteEarnedFees(ctx sdk.Context, provider sdk.AccAddress) {
 
 // SetOwnerEarnedFees sets the earned fees for the specified owner
 func (k Keeper) SetOwnerEarnedFees(ctx sdk.Context, owner sdk.AccAddress, fees sdk.Coins) {
+	// the tally is stored per denom: drop the denoms that are no longer part of it
+	k.DeleteOwnerEarnedFees(ctx, owner)
+
 	store := ctx.KVStore(k.storeKey)
 
 	for i := range fees {
